@@ -47,9 +47,13 @@ type Scenario struct {
 	SMT       *ProofJ
 	Env       Env
 	// status answers used by faults
-	Revoked        *StatusAnswerJ // a consistent answer in which the auth nonce IS revoked
-	AttackerProof  *MTPJ          // inclusion proof of the attacker's auth claim in the attacker's tree
-	AttackerSMT    *MTPJ          // inclusion proof of the credential's claim in the attacker's tree
+	Revoked       *StatusAnswerJ // a consistent answer in which the auth nonce IS revoked
+	AttackerProof *MTPJ          // inclusion proof of the attacker's auth claim in the attacker's tree
+	AttackerSMT   *MTPJ          // inclusion proof of the credential's claim in the attacker's tree
+	// RevokedMirror (auth nonce N >= 2^63 only): from a tree in which N IS revoked, the genuine
+	// non-existence proof of 2^64-N (what a verifier that converts the nonce through int64 and
+	// lets the library take the absolute value would check)
+	RevokedMirror  *StatusAnswerJ
 	OtherIssuer    *StatusAnswerJ // a consistent non-revocation answer built from the attacker's trees
 	UnrelatedProof *MTPJ          // inclusion proof of Unrelated (which IS in the issuer's tree)
 	UnrelatedSig   string         // the issuer's signature over Unrelated
@@ -178,7 +182,10 @@ func Build(rng *rand.Rand, p Params) (*Scenario, error) {
 	}
 	for _, d := range p.RevDeep {
 		n := p.AuthNonce ^ (1 << uint(d)) ^ (uint64(rng.Int63()) &^ ((1 << uint(d+1)) - 1))
-		if n != p.AuthNonce {
+		if p.AuthNonce >= 1<<63 {
+			n |= 1 << 63 // keep the cluster in the upper half as well
+		}
+		if n != p.AuthNonce && n != -p.AuthNonce {
 			_ = is.Revoke(n)
 		}
 	}
@@ -231,6 +238,17 @@ func Build(rng *rand.Rand, p Params) (*Scenario, error) {
 	}
 	if sc.Revoked, err = att.RevocationAnswer(p.AuthNonce, false); err != nil {
 		return nil, err
+	}
+	if p.AuthNonce >= 1<<63 {
+		for _, d := range p.RevDeep {
+			n := p.AuthNonce ^ (1 << uint(d)) ^ (uint64(rng.Int63()) &^ ((1 << uint(d+1)) - 1))
+			if n != p.AuthNonce && n != -p.AuthNonce {
+				_ = att.Revoke(n)
+			}
+		}
+		if sc.RevokedMirror, err = att.RevocationAnswer(-p.AuthNonce, false); err != nil {
+			return nil, err
+		}
 	}
 	aahi, _, _ := att.Auth.HiHv()
 	if sc.AttackerProof, err = att.ClaimsProof(aahi); err != nil {
